@@ -710,3 +710,80 @@ Lemma content_type_examples :
   /\ ct_loop [s_text_plain] s_app_json = [FUndefinedCT]
   /\ parse s_json = None.
 Proof. vm_compute. repeat split. Qed.
+
+(* ---------- writeOnly and history independence ---------- *)
+Lemma conversion_leaves_document s : snd (to_json_schema_obj s) = s.
+Proof. reflexivity. Qed.
+
+Lemma touch_id st : touch st = st.
+Proof.
+  unfold touch. rewrite <- (map_id st) at 2. apply map_ext. intros [k s]. reflexivity.
+Qed.
+
+(* the verdicts of a sequence of validations on one loaded schema are the verdicts of each response alone *)
+Lemma verdict_seq_pure hv inst d st rs :
+  verdict_seq hv inst d st rs = map (fun r => verdict (valid_st st inst) hv d r) rs.
+Proof.
+  induction rs as [|r rs IH]; cbn [verdict_seq map]; [reflexivity|].
+  unfold verdict_st. cbn [fst snd]. rewrite touch_id, IH. reflexivity.
+Qed.
+
+Lemma str_eqb_sym a b : str_eqb a b = str_eqb b a.
+Proof.
+  destruct (str_eqb a b) eqn:E1, (str_eqb b a) eqn:E2; try reflexivity.
+  - apply str_eqb_spec in E1. subst. rewrite str_eqb_refl in E2. discriminate.
+  - apply str_eqb_spec in E2. subst. rewrite str_eqb_refl in E1. discriminate.
+Qed.
+
+Lemma forallb_remove_first (f : str -> bool) w req : nodupb req = true ->
+  forallb f (remove_first w req) = forallb (fun n => str_eqb n w || f n) req.
+Proof.
+  induction req as [|y r IH]; intros Hn; cbn [remove_first forallb]; [reflexivity|].
+  cbn [nodupb] in Hn. apply andb_true_iff in Hn. destruct Hn as [Hy Hr].
+  destruct (str_eqb w y) eqn:E.
+  - rewrite (str_eqb_sym y w), E. cbn [orb andb].
+    apply str_eqb_spec in E. subst y.
+    apply forallb_ext_in. intros n Hin.
+    destruct (str_eqb n w) eqn:En; [|reflexivity].
+    apply str_eqb_spec in En. subst n. apply negb_true_iff in Hy.
+    assert (existsb (str_eqb w) r = true) by (apply existsb_exists; exists w; split; [exact Hin | apply str_eqb_refl]).
+    congruence.
+  - rewrite (str_eqb_sym y w), E. cbn [orb forallb]. rewrite (IH Hr). reflexivity.
+Qed.
+
+Lemma writeonly_agree s present : single_writeonly s = true -> nodupb (o_required s) = true ->
+  jvalid (fst (to_json_schema_obj s)) present = ovalid s present.
+Proof.
+  unfold single_writeonly, jvalid, ovalid, is_wo. cbn [fst to_json_schema_obj j_required j_forbidden].
+  intros Hs Hn. destruct (wo_names s) as [|w [|w2 rest]]; [| |cbn in Hs; discriminate].
+  - cbn. rewrite andb_true_r. reflexivity.
+  - cbn [fold_left forallb existsb]. rewrite (forallb_remove_first _ w _ Hn).
+    rewrite !andb_true_r. rewrite andb_comm. f_equal.
+    apply forallb_ext_in. intros n _. rewrite orb_false_r. reflexivity.
+Qed.
+
+(* F9: two writeOnly properties, one of them returned: accepted *)
+Definition s_pw : str := [112;119].
+Definition s_tok : str := [116;111;107].
+Definition s_id_ : str := [105;100].
+Definition o_two := {| o_props := [(s_id_, false); (s_pw, true); (s_tok, true)]; o_required := [s_id_] |}.
+Lemma refuted_two_writeonly :
+  single_writeonly o_two = false /\ nodupb (o_required o_two) = true
+  /\ jvalid (fst (to_json_schema_obj o_two)) [s_id_; s_pw] = true /\ ovalid o_two [s_id_; s_pw] = false.
+Proof. vm_compute. repeat split. Qed.
+
+Definition o_one := {| o_props := [(s_id_, false); (s_pw, true)]; o_required := [s_id_; s_pw] |}.
+Lemma writeonly_examples :
+  single_writeonly o_one = true /\ nodupb (o_required o_one) = true
+  /\ jvalid (fst (to_json_schema_obj o_one)) [s_id_] = true /\ jvalid (fst (to_json_schema_obj o_one)) [s_id_; s_pw] = false
+  /\ jvalid (fst (to_json_schema_obj o_one)) [] = false.
+Proof. vm_compute. repeat split. Qed.
+
+(* a history on which the second validation rejects what the documentation forbids *)
+Definition d_hist := doc30 [(KStr [50;48;48], RInline json_body)] [].
+Definition inst_hist (did : N) : list (list str) := if did =? 0 then [[s_id_]] else [[s_id_]; [s_id_; s_pw]].
+Lemma history_example :
+  verdict_seq hnone inst_hist d_hist [(0, o_one)]
+    [resp 200 (Some s_app_json) (Json 0); resp 200 (Some s_app_json) (Json 1); resp 200 (Some s_app_json) (Json 1)]
+  = [[]; [FBodySchema]; [FBodySchema]].
+Proof. vm_compute. reflexivity. Qed.
